@@ -81,6 +81,7 @@ def run_steps(m, steps):
                 else:
                     nxt.append({'__raised': '%s %s' % (kind, v)})
             imprecise += it.imprecise
+            imprecise += ['test not determined: %s' % u for u in it.unknown_branches]
         states = nxt
     need(not imprecise, 'label protocol: %s' % imprecise[:2])
     return states
